@@ -539,6 +539,18 @@ pub fn evaluate(rep: &mut Report, fl: &Flags, m: &Message, tree: &VTree, used: &
             Ok(Ok(false)) => rep.violation_lazy("C20", format!("vtree-differs:{}", nn), size, || (format!("msg {}: message differs after serialising to the value tree and back", nn), replay())),
             Ok(Ok(true)) => rep.outcome("vtree-roundtrip-ok"),
         }
+        // the same data model announcing itself as not human readable
+        let r = catch(|| {
+            let t = to_vtree_compact(m).map_err(|e| format!("serialize: {}", e))?;
+            let back: Message = from_vtree_compact(&t).map_err(|e| format!("deserialize: {}", e))?;
+            Ok::<bool, String>(&back == m)
+        });
+        match r {
+            Err(p) => rep.violation_lazy("C20", format!("compact-panic:{}:{}", p.location, nn), size, || (format!("msg {}: serde round trip (non-human-readable model) panicked: {}", nn, p.message), replay())),
+            Ok(Err(e)) => rep.violation_lazy("C20", format!("compact-error:{}", nn), size, || (format!("msg {}: round trip through a self-describing model that is not human readable failed: {}", nn, e), replay())),
+            Ok(Ok(false)) => rep.violation_lazy("C20", format!("compact-differs:{}", nn), size, || (format!("msg {}: message differs after a round trip through a self-describing model that is not human readable", nn), replay())),
+            Ok(Ok(true)) => rep.outcome("compact-roundtrip-ok"),
+        }
         if !m_nonfinite {
             let r = catch(|| {
                 let v = serde_json::to_value(m).map_err(|e| format!("to_value: {}", e))?;
@@ -827,6 +839,9 @@ pub fn vtree_from_json(j: &serde_json::Value) -> Option<VTree> {
     }
     if let Some(v) = o.get("str") {
         return Some(VTree::Str(v.as_str()?.to_string()));
+    }
+    if let Some(v) = o.get("bytes") {
+        return Some(VTree::Bytes(v.as_array()?.iter().map(|x| x.as_u64().unwrap_or(0) as u8).collect()));
     }
     if let Some(v) = o.get("some") {
         return Some(VTree::Some(Box::new(vtree_from_json(v)?)));
